@@ -63,6 +63,7 @@ package pkgload
 // settings of THAT function (looked up under the name the object was looked up with)
 //@ func PackageLoader.GetMatching
 //@   props C06 C14
+//@   errdrop method.Parse#1 documented behaviour of patterns: functions that match the name pattern but are no conversion functions are skipped (an empty result is an error)
 //@   assigns map(g.locals)
 //@   at@C06 call g.localConfig#1 assert arg0 == pkg && obj == scope.Lookup(arg1)
 //@   at@C14 call method.Parse#1 assert arg1 == opts
